@@ -79,12 +79,22 @@ def prune_sites(c: ClassInfo, table: str) -> list[tuple[FuncInfo, ast.AST]]:
             for n in walk_no_nested(m.node):
                 if isinstance(n, ast.UnaryOp) and isinstance(n.op, ast.Not) and "is_alive()" in ast.unparse(n.operand):
                     neg_alive = True
-            if not neg_alive:
+            mentions = any(isinstance(n, ast.Call) and call_name(n) == "is_alive" for n in walk_no_nested(m.node))
+            if not neg_alive and not mentions:
                 continue
+
+            def dead_only(node) -> bool:
+                # `not <p>.is_alive()` holds on every path to the removal, however the branch is written
+                from ..flow import conditions_at
+                from ..cfg import build_cfg
+
+                g_ = build_cfg(m.node)
+                return any(isinstance(c_, ast.UnaryOp) and isinstance(c_.op, ast.Not) and isinstance(c_.operand, ast.Call) and call_name(c_.operand) == "is_alive" for c_ in conditions_at(g_, m.node, node, parent_map(m.node)))
+
             for n in walk_no_nested(m.node):
-                if isinstance(n, ast.Call) and call_name(n) in ("pop", "popitem") and self_attr(n.func) == table:
+                if isinstance(n, ast.Call) and call_name(n) in ("pop", "popitem") and self_attr(n.func) == table and (neg_alive or dead_only(n)):
                     out.append((m, n))
-                elif isinstance(n, ast.Delete) and any(self_attr(t) == table for t in n.targets):
+                elif isinstance(n, ast.Delete) and any(self_attr(t) == table for t in n.targets) and (neg_alive or dead_only(n)):
                     out.append((m, n))
                 elif isinstance(n, ast.Assign) and any(isinstance(t, ast.Attribute) and t.attr == table and isinstance(t.value, ast.Name) and t.value.id == "self" for t in n.targets) and isinstance(n.value, ast.DictComp) and "is_alive()" in ast.unparse(n.value):
                     out.append((m, n))
